@@ -93,6 +93,19 @@ static void grid_real(size_t k) {
   int got = outcome([&] { Grid<Real> g(v); });
   expect("grid-real", got, valid);
 }
+// the SAME vector object is offered twice through the shared_ptr constructor: first with valid content, then - after the first grid
+// is gone - with symbolic content at the same address. Validation must look at the content every time.
+static void grid_same_storage(size_t k) {
+  auto p = std::make_shared<std::vector<Real>>();
+  for (size_t i = 0; i < k; i++) p->push_back(Real((long long)(3 * i)));
+  int first = outcome([&] { std::shared_ptr<const std::vector<Real>> cp = p; Grid<Real> g1{cp}; (void)g1.size(); });
+  expect_concrete("grid-same-storage/first-valid", first, k >= 2);
+  Bool valid = Bool::of(k >= 2);
+  for (size_t i = 0; i < k; i++) (*p)[i] = Real::var("v" + std::to_string(i));
+  for (size_t i = 0; i + 1 < k; i++) valid = valid && sym::lt((*p)[i], (*p)[i + 1]);
+  int got = outcome([&] { std::shared_ptr<const std::vector<Real>> cp = p; Grid<Real> g2{cp}; (void)g2.size(); });
+  expect("grid-same-storage/second", got, valid);
+}
 static void grid_null() {
   int got = outcome([&] { Grid<Real> g(std::shared_ptr<const std::vector<Real>>{}); });
   expect_concrete("grid-null-pointer", got, false);
@@ -287,6 +300,7 @@ void hx_cases(std::vector<Case> &cases) {
   for (size_t k = 0; k <= MAXK; k++) cases.push_back({"grid-real/k" + std::to_string(k), [=] { grid_real(k); }});
   for (size_t k = 0; k + 1 <= MAXK; k++) cases.push_back({"grid-f32-from-f64/k" + std::to_string(k), [=] { grid_f32_from_f64(k); }});
   cases.push_back({"grid-null", [] { grid_null(); }});
+  for (size_t k = 2; k <= 4; k++) cases.push_back({"grid-same-storage/k" + std::to_string(k), [=] { grid_same_storage(k); }});
   for (size_t n = 2; n <= MAXN; n++) cases.push_back({"support-spline/n" + std::to_string(n), [=] { support_spline(n); }});
   for (size_t m = 0; m <= MAXK; m++) cases.push_back({"generator-f64/m" + std::to_string(m), [=] { generator_f64(m); }});
   for (size_t m = 0; m <= MAXK; m++) {
